@@ -375,12 +375,40 @@ def build_harness(features=None, hooks=False):
 # ------------------------------------------------------------------ running engines
 
 
+ENGINE_TIMEOUT = int(os.environ.get('VERIF_ENGINE_TIMEOUT', '900'))     # seconds per engine process: an engine that runs longer is treated as dead
+
+
+def _limit_engine():
+    import resource
+    lim = 24 * 1024 ** 3        # address space: an engine asked for an absurd amount of work dies instead of taking the machine down
+    resource.setrlimit(resource.RLIMIT_AS, (lim, lim))
+
+
 def run_engine(cmd, lines, nproc=1):
     if not lines:
         return []
     data = ('\n'.join(lines) + '\n').encode()
     if nproc <= 1 or len(lines) < 2000:
-        p = subprocess.run(cmd, input=data, stdout=subprocess.PIPE, stderr=subprocess.PIPE, timeout=7200)
+        tf_in = tempfile.TemporaryFile()
+        tf_in.write(data)
+        tf_in.seek(0)
+        tf_out = tempfile.TemporaryFile()
+        tf_err = tempfile.TemporaryFile()
+        pr = subprocess.Popen(cmd, stdin=tf_in, stdout=tf_out, stderr=tf_err, preexec_fn=_limit_engine)
+        timed_out = False
+        try:
+            pr.wait(timeout=ENGINE_TIMEOUT)
+        except subprocess.TimeoutExpired:
+            pr.kill()
+            pr.wait()
+            timed_out = True
+        tf_out.seek(0)
+        tf_err.seek(0)
+
+        class _P:
+            stdout = tf_out.read()
+            stderr = tf_err.read() + (b' [engine timeout]' if timed_out else b'')
+        p = _P
         outs = p.stdout.decode('utf-8', 'replace').split('\n')
         if outs and outs[-1] == '':
             outs.pop()
@@ -397,11 +425,16 @@ def run_engine(cmd, lines, nproc=1):
         tf_in.write(('\n'.join(part) + '\n').encode())
         tf_in.seek(0)
         tf_out = tempfile.TemporaryFile()
-        pr = subprocess.Popen(cmd, stdin=tf_in, stdout=tf_out, stderr=subprocess.DEVNULL)
+        pr = subprocess.Popen(cmd, stdin=tf_in, stdout=tf_out, stderr=subprocess.DEVNULL, preexec_fn=_limit_engine)
         procs.append((pr, tf_out, part))
     res = []
+    t_end = time.time() + ENGINE_TIMEOUT
     for pr, tf_out, part in procs:
-        pr.wait()
+        try:
+            pr.wait(timeout=max(1.0, t_end - time.time()))
+        except subprocess.TimeoutExpired:
+            pr.kill()
+            pr.wait()
         tf_out.seek(0)
         outs = tf_out.read().decode('utf-8', 'replace').split('\n')
         if outs and outs[-1] == '':
